@@ -244,3 +244,76 @@ func genJSON(r *core.Run, name string, v any) {
 	b, _ := json.MarshalIndent(v, "", " ")
 	_ = os.WriteFile(r.VerifDir+"/tables/"+name+".json", b, 0o644)
 }
+
+// switchTable extracts case-label -> result pairs from the switch statements of fd: each case expression that
+// resolves to a package-level object is a label; the result is the package-level object named by the clause's
+// `return X` / `v = X` (last statement). Labels and results are rendered as "pkg.Name".
+func switchTable(fd *ast.FuncDecl, info *types.Info) map[string]string {
+	out := map[string]string{}
+	objName := func(e ast.Expr) string {
+		var id *ast.Ident
+		switch x := e.(type) {
+		case *ast.Ident:
+			id = x
+		case *ast.SelectorExpr:
+			id = x.Sel
+		case *ast.CallExpr:
+			return ""
+		}
+		if id == nil {
+			return ""
+		}
+		obj := info.Uses[id]
+		if obj == nil || obj.Pkg() == nil || obj.Parent() != obj.Pkg().Scope() {
+			return ""
+		}
+		return core.RelPkg(obj.Pkg().Path()) + "." + obj.Name()
+	}
+	ast.Inspect(fd, func(n ast.Node) bool {
+		cc, ok := n.(*ast.CaseClause)
+		if !ok || len(cc.List) == 0 || len(cc.Body) == 0 {
+			return true
+		}
+		var res string
+		switch st := cc.Body[len(cc.Body)-1].(type) {
+		case *ast.ReturnStmt:
+			if len(st.Results) >= 1 {
+				res = objName(st.Results[0])
+			}
+		case *ast.AssignStmt:
+			if len(st.Rhs) == 1 {
+				res = objName(st.Rhs[0])
+			}
+		}
+		if res == "" {
+			return true
+		}
+		for _, e := range cc.List {
+			if l := objName(e); l != "" {
+				out[l] = res
+			}
+		}
+		return true
+	})
+	return out
+}
+
+// inverseTables checks that two extracted tables are mutually inverse on their common domain and that paired names
+// agree after stripping the given affixes.
+func inverseTables(r *core.Run, rule, nameA, nameB string, a, b map[string]string, norm func(string) string, pos token.Pos) {
+	for _, k := range sortedKeys(a) {
+		v := a[k]
+		back, ok := b[v]
+		key := nameA + "[" + k + "] = " + v
+		switch {
+		case !ok:
+			r.Bad(rule, key, pos, nameB+" has no entry for "+v+": the conversion does not round-trip")
+		case back != k:
+			r.Bad(rule, key, pos, nameB+"["+v+"] = "+back+", not "+k+": the two conversion tables are not inverse")
+		case norm != nil && norm(k) != norm(v):
+			r.Bad(rule, key, pos, "paired names differ ("+norm(k)+" vs "+norm(v)+"): the entry maps one type to another type's counterpart")
+		default:
+			r.OK(rule, key, pos, "inverse entry present and names agree")
+		}
+	}
+}
